@@ -756,11 +756,104 @@ func Select(a, i *Term) *Term {
 	if a.Op == "constarr" || a.Op == "constarr2" {
 		return a.Args[0]
 	}
+	if i.Op != "c" && a.Op == "store" && !a.S.A2 {
+		if t := selectConstChain(a, i); t != nil {
+			return t
+		}
+	}
 	if a.S.A2 {
 		return mk(&Term{Op: "select", S: Arr(int(a.S.AW)), Args: []*Term{a, i}})
 	}
 	return mk(&Term{Op: "select", S: BV(int(a.S.AW)), Args: []*Term{a, i}})
 }
+// selectConstChain: a is store(...store(constarr(d), c1, v1)..., cn, vn) with all ci, vi, d constants
+// (a concrete table, e.g. a bitmap block written by mkfs). A read at a symbolic index becomes a balanced
+// ite tree over the runs of equal values instead of a select over a long store chain.
+var constChainCache sync.Map // term id -> *constChain (nil entry = not a constant chain)
+
+type constChain struct {
+	runs []ccRun // sorted by start; value of index x = run with largest start <= x
+	ew   int
+}
+type ccRun struct {
+	start uint64
+	val   uint64
+}
+
+func selectConstChain(a, i *Term) *Term {
+	var cc *constChain
+	if v, ok := constChainCache.Load(a.id); ok {
+		cc, _ = v.(*constChain)
+		if cc == nil {
+			return nil
+		}
+	} else {
+		cc = buildConstChain(a)
+		if cc == nil {
+			constChainCache.Store(a.id, (*constChain)(nil))
+			return nil
+		}
+		constChainCache.Store(a.id, cc)
+	}
+	var build func(lo, hi int) *Term
+	build = func(lo, hi int) *Term {
+		if lo == hi {
+			return Const(cc.ew, cc.runs[lo].val)
+		}
+		mid := (lo + hi + 1) / 2
+		return Ite(Cmp("bvult", i, c64(cc.runs[mid].start)), build(lo, mid-1), build(mid, hi))
+	}
+	return build(0, len(cc.runs)-1)
+}
+
+func buildConstChain(a *Term) *constChain {
+	vals := map[uint64]uint64{}
+	n := 0
+	t := a
+	for t.Op == "store" {
+		if t.Args[1].Op != "c" || t.Args[2].Op != "c" {
+			return nil
+		}
+		if _, ok := vals[t.Args[1].C]; !ok {
+			vals[t.Args[1].C] = t.Args[2].C
+		}
+		t = t.Args[0]
+		n++
+	}
+	if t.Op != "constarr" || t.Args[0].Op != "c" || n < 16 {
+		return nil
+	}
+	def := t.Args[0].C
+	keys := make([]uint64, 0, len(vals))
+	for k := range vals {
+		keys = append(keys, k)
+	}
+	sort.Slice(keys, func(x, y int) bool { return keys[x] < keys[y] })
+	cc := &constChain{ew: int(a.S.AW)}
+	cur := def
+	cc.runs = append(cc.runs, ccRun{0, def})
+	next := uint64(0)
+	for _, k := range keys {
+		if k > next && cur != def {
+			cc.runs = append(cc.runs, ccRun{next, def})
+			cur = def
+		}
+		if vals[k] != cur {
+			if k == 0 {
+				cc.runs[0].val = vals[k]
+			} else {
+				cc.runs = append(cc.runs, ccRun{k, vals[k]})
+			}
+			cur = vals[k]
+		}
+		next = k + 1
+	}
+	if cur != def && next != 0 {
+		cc.runs = append(cc.runs, ccRun{next, def})
+	}
+	return cc
+}
+
 func Store(a, i, v *Term) *Term {
 	// overwrite of the same index
 	if a.Op == "store" && a.Args[1] == i {
